@@ -440,6 +440,19 @@ theorem tie_selector (ms : List Mapping) (k : Int) (s : String) :
     rwvmSelectKinds = ["int", "str", "code"] :=
   select_tie ms k s
 
+/-- **Tie, read entry points** (`image.py`, T19f): `get_frame`, `get_frames`, `get_volume` (through `_get_pixels_by_frame`) hand the
+caller's own `real_world_value_map_selector` / `apply_real_world_transform` to every pixel transform they build, and the per-frame
+transform is built for the frame's own (standardised) index -- what `readReal o f sel` assumes. -/
+theorem tie_read_forwarding :
+    (∀ r ∈ pmReadForwarding, (r.2.2.1 = "real_world_value_map_selector" ∨ r.2.2.1 = "apply_real_world_transform") → r.2.2.2 = r.2.2.1) ∧
+    ("get_frame", "_CombinedPixelTransform#0", "frame_index", "frame_index") ∈ pmReadForwarding ∧
+    ("get_frame", "local", "frame_index", "self._standardize_frame_index(frame_number, as_index)") ∈ pmReadForwarding ∧
+    ("get_frames", "_CombinedPixelTransform#1", "frame_index", "frame_index") ∈ pmReadForwarding ∧
+    ("_get_pixels_by_frame", "_CombinedPixelTransform#1", "frame_index", "frame_index") ∈ pmReadForwarding ∧
+    ("get_volume", "_get_pixels_by_frame#0", "real_world_value_map_selector", "real_world_value_map_selector") ∈ pmReadForwarding ∧
+    (pmReadForwarding.filter (fun r => r.2.2.1 == "real_world_value_map_selector")).length = 6 :=
+  read_forwarding_tie
+
 /-- non-vacuity: on the example input the regenerated guards admit, and refuse a 5-D array -/
 example : (admissionGen exampleInput).toOption.isSome = true ∧ (admissionGen { exampleInput with ndim := 5 }).toOption.isNone = true := by
   decide
